@@ -66,7 +66,7 @@ def gen(seed, tier="quick"):
         ps = []
         for pi in range(topo.randint(1, 3)):
             dt = topo.choice(["f8", "f8", "?"])
-            val = (topo.random() < 0.5) if dt == "?" else round(topo.uniform(-5, 5), 3)
+            val = (topo.random() < 0.5) if dt == "?" else topo.choice([round(topo.uniform(-5, 5), 3), round(topo.uniform(-5, 5), 3), 0, 1, topo.randint(-3, 3)])
             nm = "n%d/p%d" % (ni, pi)
             ps.append({"name": nm, "value": val, "dtype": dt})
             pnames.append((nm, dt))
@@ -125,7 +125,7 @@ def gen(seed, tier="quick"):
 
     n_ops = work.randint(10, 200 if tier == "thorough" else 80)
     n_actors = work.randint(1, 4)
-    enabled = {k: flt.random() < 0.6 for k in ("wrong_type", "non_msg", "late_reg", "mutate_after", "repeat_same", "param_midrun", "logger_dt_change", "undeclared_param")}
+    enabled = {k: flt.random() < 0.6 for k in ("wrong_type", "non_msg", "late_reg", "mutate_after", "repeat_same", "param_midrun", "logger_dt_change", "undeclared_param", "stale_stamp")}
     ops = []
     for _ in range(n_ops):
         r = work.random()
@@ -136,6 +136,8 @@ def gen(seed, tier="quick"):
             op = {"t": tt, "actor": actor, "op": "pub", "topic": tp["name"],
                   "fresh": work.random() < 0.3,
                   "mutate_after": enabled["mutate_after"] and flt.random() < 0.5}
+            if enabled["stale_stamp"] and flt.random() < 0.3:
+                op["stamp_offset"] = -flt.choice([1e-6, 1e-3, 0.05, 10.0])  # data stamped earlier than what was published before
             if enabled["repeat_same"] and flt.random() < 0.1:
                 op["op"] = "pub_same"
         elif r < 0.80:
@@ -176,6 +178,27 @@ def gen(seed, tier="quick"):
         ops.append(op)
     ops.sort(key=lambda o: (o["t"], o["actor"]))
 
+    segments, between_ops = [], []
+    if knobs.random() < 0.25:
+        segments = sorted(knobs.choice(ticks + grid[1:]) for _ in range(knobs.randint(1, 2)))
+        segments = [x for x in segments if 0.0 < x < tf]
+        for bi in range(len(segments)):
+            for _ in range(knobs.randint(0, 3)):
+                if knobs.random() < 0.5:
+                    tp = knobs.choice(topics)
+                    between_ops.append({"boundary": bi, "actor": 7, "op": "pub", "topic": tp["name"], "fresh": False, "mutate_after": knobs.random() < 0.5})
+                else:
+                    nm, dt = knobs.choice(pnames)
+                    if nm == "logger/dt":
+                        val = knobs.choice([1 / 200, 1 / 50, tf / 7])
+                        if tf / val > 1500:
+                            val = tf / 1500
+                    elif dt == "?":
+                        val = knobs.random() < 0.5
+                    else:
+                        val = round(knobs.uniform(-100, 100), 4)
+                    between_ops.append({"boundary": bi, "actor": 7, "op": "set_param", "name": nm, "value": val})
+
     init_params = {}
     for nm, dt in pnames:
         if knobs.random() < 0.3 and nm != "logger/dt":
@@ -193,6 +216,8 @@ def gen(seed, tier="quick"):
         "nodes": nodes,
         "init_params": init_params,
         "ops": ops,
+        "segments": segments,
+        "between_ops": between_ops,
         "tf": tf,
         "budget": 400000,
     }
@@ -252,14 +277,15 @@ class BusModel:
 # ---------------------------------------------------------------------------
 # execution
 # ---------------------------------------------------------------------------
-def _fill(msg, serial, now):
-    """Every element of every field gets a value unique to this publication."""
+def _fill(msg, serial, now, stamp=None):
+    """Every element of every field gets a value unique to this publication.  The message's own
+    time stamp is the publication time unless the scenario says otherwise (late, out-of-order data)."""
     d = msg.data
     base = float(serial * 256)
     i = 1
     for name in d.dtype.names:
         if name == "time":
-            d[name] = now
+            d[name] = now if stamp is None else stamp
             continue
         shp = d.dtype[name].shape
         if shp:
@@ -556,7 +582,11 @@ def run(scn):
             else:
                 msg = get_msg(op["actor"], topic, op.get("fresh", False))
                 serial = rt_serial()
-                _fill(msg, serial, core.now)
+                if op.get("stamp_offset") is not None:
+                    fault("stale_timestamp")
+                    _fill(msg, serial, core.now, core.now + op["stamp_offset"])
+                else:
+                    _fill(msg, serial, core.now)
             publish_and_compare(topic, msg, serial)
             mutated = False
             if op.get("mutate_after"):
@@ -648,7 +678,22 @@ def run(scn):
     harness_error = None
     repo_exc = None
     try:
+        # the run may be split into segments (`run(until=...)` called again on the same core, as a
+        # caller stepping a simulation does); operations may happen between segments
+        t_prev = 0.0
+        for bi, t_stop in enumerate(sorted(set(float(x) for x in scn.get("segments", []) if 0.0 < float(x) < scn["tf"]))):
+            core.run(until=t_stop)
+            fault("run_segment_boundary")
+            for op in scn.get("between_ops", []):
+                if op.get("boundary") == bi:
+                    execute(dict(op, t=t_stop))
+            # run() broadcasts the parameters again when it is re-entered
+            t_prev = t_stop
+        if t_prev > 0.0:
+            model.broadcast()
         core.run(until=scn["tf"])
+        if t_prev > 0.0:
+            check_followers("after the run was resumed")
     except BudgetExceeded as e:
         harness_error = "budget: %s" % e
     except Exception as e:  # an exception escaping the bus run
@@ -732,7 +777,7 @@ def sample(scn):
 
 
 # shrinking hints -------------------------------------------------------------
-LIST_KEYS = ("ops", "setup", "subs", "nodes", "topics")
+LIST_KEYS = ("ops", "between_ops", "segments", "setup", "subs", "nodes", "topics")
 
 
 def simplify(scn):
